@@ -102,8 +102,15 @@ func runC20(t *testing.T, c explore.Case) (res explore.Result) {
 				rl = dht.QueryRateLimiting{} // the second query always uses the defaults
 			}
 			rlOf[dest.String()] = rl
+			qctx := ctx
+			if p["dl"] == "short" {
+				// a deadline that falls before the next token becomes available
+				var c2 context.CancelFunc
+				qctx, c2 = context.WithTimeout(ctx, lim.every/4)
+				defer c2()
+			}
 			go func() {
-				outRes[i] = y.S.Query(ctx, dht.NewAddr(dest), "ping", dht.QueryInput{NumTries: tries, RateLimiting: rl})
+				outRes[i] = y.S.Query(qctx, dht.NewAddr(dest), "ping", dht.QueryInput{NumTries: tries, RateLimiting: rl})
 				outDone[i] = true
 			}()
 		}
@@ -271,7 +278,7 @@ var c20States = map[string]struct{}{}
 func TestC20(t *testing.T) {
 	w := explore.NewWorker("C20")
 	defer w.Finish()
-	w.SetRule("limiter (rate, burst) in {(1/s,1),(1/s,3),(10/s,2),(0.1/s,1)} x WaitToReply on/off x inbound floods of 0..6 queries of mixed kinds (ping, find_node, unknown method => error path, missing arguments => error path, get) from 1 or 3 sources arriving all at once / spaced half a token interval / spaced one token interval x 0..2 concurrent outbound queries to silent peers with rate-limiting options {default, NotFirst, NotAny, WaitOnRetries, NoWaitFirst} x NumTries {1,3} x scripted socket write error on write {none,1,2} (token refund path); the clock advances in quarter-token ticks to a horizon; oracle over the written-datagram timeline: every window of rate-limited datagrams (all r/e, every q send not exempted by its options) holds at most burst + rate x length; replies are immediate or never unless the node waits, then every response eventually leaves; no reply is sent twice; outbound queries return")
+	w.SetRule("limiter (rate, burst) in {(1/s,1),(1/s,3),(10/s,2),(0.1/s,1)} x WaitToReply on/off x inbound floods of 0..6 queries of mixed kinds (ping, find_node, unknown method => error path, missing arguments => error path, get) from 1 or 3 sources arriving all at once / spaced half a token interval / spaced one token interval x 0..2 concurrent outbound queries to silent peers with rate-limiting options {default, NotFirst, NotAny, WaitOnRetries, NoWaitFirst} x NumTries {1,3} x context {no deadline, a deadline shorter than the wait for the next token} x scripted socket write error on write {none,1,2} (token refund path); the clock advances in quarter-token ticks to a horizon; oracle over the written-datagram timeline: every window of rate-limited datagrams (all r/e, every q send not exempted by its options) holds at most burst + rate x length; replies are immediate or never unless the node waits, then every response eventually leaves; no reply is sent twice; outbound queries return")
 	idx := 0
 	defer func() { w.AddStates(len(c20States)) }()
 	run := func(h []string) {
@@ -324,8 +331,12 @@ func TestC20(t *testing.T) {
 										if n == 0 && out == 0 {
 											continue
 										}
-										run([]string{"lim=" + lim.name, "wait=" + wait, "n=" + strconv.Itoa(n), "srcs=" + strconv.Itoa(srcs), "pat=" + pat,
-											"out=" + strconv.Itoa(out), "rl=" + rl, "tries=" + strconv.Itoa(tries), "fail=" + strconv.Itoa(fail)})
+										h := []string{"lim=" + lim.name, "wait=" + wait, "n=" + strconv.Itoa(n), "srcs=" + strconv.Itoa(srcs), "pat=" + pat,
+											"out=" + strconv.Itoa(out), "rl=" + rl, "tries=" + strconv.Itoa(tries), "fail=" + strconv.Itoa(fail)}
+										run(h)
+										if out > 0 && fail == 0 && (w.Thorough() || pat == "burst") {
+											run(append(append([]string(nil), h...), "dl=short"))
+										}
 									}
 								}
 							}
